@@ -155,11 +155,13 @@ theorem findIn_none_of_not_isDir (sfx src : List Str) (fs : Fs) (d : Path) (c : 
 theorem leaf_agrees (sfx src lsfx : List Str) (fs : Fs) (d : Path) (c : Str)
     (hs : SameSuffixes sfx lsfx = true)
     (hns : (!fs.isDir (d ++ [c]) || fs.isFile (d ++ [c, INIT_PY])) = true)
-    (hcl : clashFreeAt sfx fs d c = true)
+    (hcl : pkgClashFreeAt sfx fs d c = true)
+    (hsc : sameChoiceAt sfx lsfx fs d c = true)
     (hreg : regularAt sfx fs d c = true) :
     (pathFind lsfx fs [d] c []).map Loc.file? = (findIn sfx src fs (d ++ [c])).map (fun x => some x.1) := by
   obtain ⟨hmem, hpy⟩ := sameSuffixes_iff hs
-  simp only [clashFreeAt, decide_eq_true_eq] at hcl
+  simp only [pkgClashFreeAt, Bool.not_eq_true', Bool.and_eq_false_iff] at hcl
+  have hsc' := eq_of_beq hsc
   simp only [regularAt, Bool.and_eq_true, List.all_eq_true, Bool.or_eq_true, Bool.not_eq_true',
     beq_iff_eq] at hreg
   obtain ⟨hreg1, hreg2⟩ := hreg
@@ -179,10 +181,10 @@ theorem leaf_agrees (sfx src lsfx : List Str) (fs : Fs) (d : Path) (c : Str)
     have hnone : sfx.find? (fun s => fs.exists (d ++ [c ++ s])) = none := by
       rw [List.find?_eq_none]
       intro s hs hp
-      have : s ∈ sfx.filter (fun s => fs.exists (d ++ [c ++ s])) := List.mem_filter.mpr ⟨hs, hp⟩
-      have hl := List.length_pos_of_mem this
-      simp only [hex, if_true] at hcl
-      omega
+      rcases hcl with h | h
+      · rw [hex] at h; cases h
+      · rw [List.any_eq_false] at h
+        exact h s hs hp
     rw [hfind, hnone]
     simp only [hex', if_true]
     simp [Loc.file?, INIT_PY]
@@ -195,7 +197,7 @@ theorem leaf_agrees (sfx src lsfx : List Str) (fs : Fs) (d : Path) (c : Str)
     have hd : fs.isDir (d ++ [c]) = false := by simpa [hf] using hns
     rw [finder_nodir hd, hex']
     have h1 : sfx.find? (fun s => fs.exists (d ++ [c ++ s])) = lsfx.find? (fun s => fs.exists (d ++ [c ++ s])) :=
-      find?_unique _ _ _ (by omega) hmem
+      hsc'
     have h2 : lsfx.find? (fun s => fs.exists (d ++ [c ++ s])) = lsfx.find? (fun s => fs.isFile (d ++ [c ++ s])) := by
       apply find?_congr_mem
       intro s hs
@@ -208,7 +210,8 @@ theorem chain_agrees (sfx src lsfx : List Str) (fs : Fs) (comps : List Str) (d :
     (hne : comps ≠ [])
     (hs : SameSuffixes sfx lsfx = true)
     (hns : nsFreeChain fs d comps = true)
-    (hcl : atLeaf (clashFreeAt sfx fs) d comps = true)
+    (hcl : atLeaf (pkgClashFreeAt sfx fs) d comps = true)
+    (hsc : atLeaf (sameChoiceAt sfx lsfx fs) d comps = true)
     (hreg : atLeaf (regularAt sfx fs) d comps = true) :
     (importlibFindC lsfx fs [d] comps).map Loc.file?
       = (findIn sfx src fs (d ++ comps)).map (fun x => some x.1) := by
@@ -218,11 +221,11 @@ theorem chain_agrees (sfx src lsfx : List Str) (fs : Fs) (comps : List Str) (d :
     cases t with
     | nil =>
       simp only [nsFreeChain, Bool.and_true] at hns
-      simp only [atLeaf] at hcl hreg
+      simp only [atLeaf] at hcl hsc hreg
       simp only [importlibFindC]
-      exact leaf_agrees sfx src lsfx fs d c hs hns hcl hreg
+      exact leaf_agrees sfx src lsfx fs d c hs hns hcl hsc hreg
     | cons c' rest =>
-      simp only [atLeaf] at hcl hreg
+      simp only [atLeaf] at hcl hsc hreg
       rw [nsFreeChain, Bool.and_eq_true] at hns
       obtain ⟨hns1, hns2⟩ := hns
       obtain ⟨hmem, hpy⟩ := sameSuffixes_iff hs
@@ -233,7 +236,7 @@ theorem chain_agrees (sfx src lsfx : List Str) (fs : Fs) (comps : List Str) (d :
         obtain ⟨s0, _, _, hfind⟩ := finder_pkg ((hmem PY).mp hpy) hf
         rw [hfind]
         simp only
-        have := ih (d ++ [c]) (by simp) hns2 hcl hreg
+        have := ih (d ++ [c]) (by simp) hns2 hcl hsc hreg
         rw [this]
         simp
       | false =>
@@ -300,6 +303,7 @@ theorem find_agrees_aux (roots : List Path) (sfx src lsfx : List Str) (fs : Fs) 
     (hs : SameSuffixes sfx lsfx = true)
     (hns : NoNamespaceDirs roots fs (c :: t) = true)
     (hcl : NoModulePackageClash roots sfx fs (c :: t) = true)
+    (hsc : SameChoice roots sfx lsfx fs (c :: t) = true)
     (hreg : Regular roots sfx fs (c :: t) = true)
     (hsp : NoSplitPackage roots sfx src lsfx fs (c :: t) = true) :
     (importlibFindC lsfx fs roots (c :: t)).map Loc.file?
@@ -307,12 +311,13 @@ theorem find_agrees_aux (roots : List Path) (sfx src lsfx : List Str) (fs : Fs) 
   induction roots with
   | nil => simp [importlibFindC_nil_roots]
   | cons r rs ih =>
-    simp only [NoNamespaceDirs, NoModulePackageClash, Regular, List.all_cons, Bool.and_eq_true] at hns hcl hreg ih
+    simp only [NoNamespaceDirs, NoModulePackageClash, SameChoice, Regular, List.all_cons, Bool.and_eq_true] at hns hcl hsc hreg ih
     obtain ⟨hns1, hns2⟩ := hns
     obtain ⟨hcl1, hcl2⟩ := hcl
+    obtain ⟨hsc1, hsc2⟩ := hsc
     obtain ⟨hreg1, hreg2⟩ := hreg
     obtain ⟨hmem, hpy⟩ := sameSuffixes_iff hs
-    have hA := chain_agrees sfx src lsfx fs (c :: t) r (by simp) hs hns1 hcl1 hreg1
+    have hA := chain_agrees sfx src lsfx fs (c :: t) r (by simp) hs hns1 hcl1 hsc1 hreg1
     have hnp : ∀ p, finder lsfx fs r c ≠ .portion p := by
       intro p
       rw [nsFreeChain, Bool.and_eq_true] at hns1
@@ -352,7 +357,7 @@ theorem find_agrees_aux (roots : List Path) (sfx src lsfx : List Str) (fs : Fs) 
         | some x => rw [h] at hA; simp at hA
       rw [hf]
       simp only [Bool.false_eq_true, if_false]
-      apply ih hns2 hcl2 hreg2
+      apply ih hns2 hcl2 hsc2 hreg2
       cases t with
       | nil => simp [NoSplitPackage]
       | cons c' rest =>
@@ -367,23 +372,25 @@ theorem find_agrees (roots : List Path) (sfx src lsfx : List Str) (fs : Fs) (com
     (hs : SameSuffixes sfx lsfx = true)
     (hns : NoNamespaceDirs roots fs comps = true)
     (hcl : NoModulePackageClash roots sfx fs comps = true)
+    (hsc : SameChoice roots sfx lsfx fs comps = true)
     (hreg : Regular roots sfx fs comps = true)
     (hsp : NoSplitPackage roots sfx src lsfx fs comps = true) :
     (importlibFindC lsfx fs roots comps).map Loc.file?
       = (roots.findSome? (fun p => findIn sfx src fs (p ++ comps))).map (fun x => some x.1) := by
   cases comps with
   | nil => simp [validComps] at hv
-  | cons c t => exact find_agrees_aux roots sfx src lsfx fs c t hs hns hcl hreg hsp
+  | cons c t => exact find_agrees_aux roots sfx src lsfx fs c t hs hns hcl hsc hreg hsp
 
 theorem getModuleC_file (roots : List Path) (sfx src lsfx : List Str) (fs : Fs) (comps : List Str)
     (hv : validComps comps = true)
     (hs : SameSuffixes sfx lsfx = true)
     (hns : NoNamespaceDirs roots fs comps = true)
     (hcl : NoModulePackageClash roots sfx fs comps = true)
+    (hsc : SameChoice roots sfx lsfx fs comps = true)
     (hreg : Regular roots sfx fs comps = true)
     (hsp : NoSplitPackage roots sfx src lsfx fs comps = true) (inSys : Bool) :
     (getModuleC roots sfx src fs inSys comps).file? = (importlibFindC lsfx fs roots comps).bind Loc.file? := by
-  have h := find_agrees roots sfx src lsfx fs comps hv hs hns hcl hreg hsp
+  have h := find_agrees roots sfx src lsfx fs comps hv hs hns hcl hsc hreg hsp
   unfold getModuleC
   cases hX : importlibFindC lsfx fs roots comps with
   | none =>
@@ -406,10 +413,11 @@ theorem getModuleC_importError_iff (roots : List Path) (sfx src lsfx : List Str)
     (hs : SameSuffixes sfx lsfx = true)
     (hns : NoNamespaceDirs roots fs comps = true)
     (hcl : NoModulePackageClash roots sfx fs comps = true)
+    (hsc : SameChoice roots sfx lsfx fs comps = true)
     (hreg : Regular roots sfx fs comps = true)
     (hsp : NoSplitPackage roots sfx src lsfx fs comps = true) :
     getModuleC roots sfx src fs false comps = .importError ↔ importlibFindC lsfx fs roots comps = none := by
-  have h := find_agrees roots sfx src lsfx fs comps hv hs hns hcl hreg hsp
+  have h := find_agrees roots sfx src lsfx fs comps hv hs hns hcl hsc hreg hsp
   unfold getModuleC
   cases hX : importlibFindC lsfx fs roots comps with
   | none =>
@@ -422,5 +430,39 @@ theorem getModuleC_importError_iff (roots : List Path) (sfx src lsfx : List Str)
     cases hY : roots.findSome? (fun p => findIn sfx src fs (p ++ comps)) with
     | none => rw [hY] at h; simp at h
     | some y => obtain ⟨f, b⟩ := y; simp
+
+theorem find?_append_comm {α} (p : α → Bool) (a b : List α) (h : (a.any p && b.any p) = false) :
+    (a ++ b).find? p = (b ++ a).find? p := by
+  rw [Bool.and_eq_false_iff] at h
+  rw [List.find?_append, List.find?_append]
+  rcases h with h | h
+  · have ha : a.find? p = none := by
+      rw [List.find?_eq_none]; rw [List.any_eq_false] at h; exact h
+    rw [ha]; cases b.find? p <;> rfl
+  · have hb : b.find? p = none := by
+      rw [List.find?_eq_none]; rw [List.any_eq_false] at h; exact h
+    rw [hb]; cases a.find? p <;> rfl
+
+theorem Find.sameChoiceAt_of_extFreeAt (nonext ext : List Str) (fs : Fs) (d : Path) (c : Str)
+    (h : extFreeAt nonext ext fs d c = true) : sameChoiceAt (nonext ++ ext) (ext ++ nonext) fs d c = true := by
+  simp only [extFreeAt, Bool.not_eq_true'] at h
+  simp only [sameChoiceAt, beq_iff_eq]
+  exact find?_append_comm _ _ _ h
+
+theorem Find.atLeaf_mono (P Q : Path → Str → Bool) (hPQ : ∀ d c, P d c = true → Q d c = true)
+    (d : Path) (comps : List Str) (h : atLeaf P d comps = true) : atLeaf Q d comps = true := by
+  induction comps generalizing d with
+  | nil => rfl
+  | cons c t ih =>
+    cases t with
+    | nil => simp only [atLeaf] at h ⊢; exact hPQ d c h
+    | cons c' rest => simp only [atLeaf] at h ⊢; exact ih _ h
+
+theorem sameChoice_of_noExt (roots : List Path) (nonext ext : List Str) (fs : Fs) (comps : List Str)
+    (h : NoExtensionNextToSource roots nonext ext fs comps = true) :
+    SameChoice roots (nonext ++ ext) (ext ++ nonext) fs comps = true := by
+  simp only [NoExtensionNextToSource, SameChoice, List.all_eq_true] at h ⊢
+  intro r hr
+  exact Find.atLeaf_mono _ _ (Find.sameChoiceAt_of_extFreeAt nonext ext fs) r comps (h r hr)
 
 end SuppModel.Fs
